@@ -1784,6 +1784,8 @@ bn_clz(bn_p bn) {
 
 	if (NULL == bn)
 		return (0);
+	if (0 == bn->digits) /* Zero: no top digit to look at. */
+		return ((BN_DIGIT_BITS * bn->count));
 	return (((BN_DIGIT_BITS * (bn->count - bn->digits)) +
 	    bn_digit_clz(bn->num[(bn->digits - 1)])));
 }
@@ -3447,17 +3449,19 @@ static inline int
 bn_mod_div_mont(bn_p bn, bn_p d, bn_p m, bn_mod_rd_data_p mod_rd_data __unused) {
 	size_t bits;
 	int cmp_res;
-	bn_t /*u,*/ v, a, b;
+	bn_t u, v, a, b;
 
 	if (0 != bn_is_zero(bn) || 0 != bn_is_zero(m) || bn_cmp(bn, m) >= 0)
 		return (EINVAL);
+	if (0 != bn_is_even(m)) /* Halving steps: (x + m) / 2 need odd m. */
+		return (EINVAL);
 	bits = ((4 + MAX(bn->digits, m->digits)) * BN_DIGIT_BITS);
-	//BN_RET_ON_ERR(bn_init(&u, bits));
+	BN_RET_ON_ERR(bn_init(&u, bits)); /* Not in bn: u + m may not fit in it. */
 	BN_RET_ON_ERR(bn_init(&v, bits));
 	BN_RET_ON_ERR(bn_init(&a, bits));
 	BN_RET_ON_ERR(bn_init(&b, bits));
 
-	//BN_RET_ON_ERR(bn_assign(&u, bn));
+	BN_RET_ON_ERR(bn_assign(&u, bn));
 	//bn_assign_zero(&v);
 	BN_RET_ON_ERR(bn_assign(&a, d));
 	BN_RET_ON_ERR(bn_assign(&b, m));
@@ -3465,10 +3469,10 @@ bn_mod_div_mont(bn_p bn, bn_p d, bn_p m, bn_mod_rd_data_p mod_rd_data __unused) 
 	while ((cmp_res = bn_cmp(&a, &b)) != 0) {
 		if (0 != bn_is_even(&a)) {
 			bn_r_shift(&a, 1);
-			if (0 == bn_is_even(bn)) {
-				BN_RET_ON_ERR(bn_add(bn, m, NULL));
+			if (0 == bn_is_even(&u)) {
+				BN_RET_ON_ERR(bn_add(&u, m, NULL));
 			}
-			bn_r_shift(bn, 1);
+			bn_r_shift(&u, 1);
 		} else if (0 != bn_is_even(&b)) {
 			bn_r_shift(&b, 1);
 			if (0 == bn_is_even(&v)) {
@@ -3478,21 +3482,21 @@ bn_mod_div_mont(bn_p bn, bn_p d, bn_p m, bn_mod_rd_data_p mod_rd_data __unused) 
 		} else if (cmp_res > 0) {
 			BN_RET_ON_ERR(bn_sub(&a, &b, NULL));
 			bn_r_shift(&a, 1);
-			if (bn_cmp(bn, &v) < 0) {
-				BN_RET_ON_ERR(bn_add(bn, m, NULL));
+			if (bn_cmp(&u, &v) < 0) {
+				BN_RET_ON_ERR(bn_add(&u, m, NULL));
 			}
-			BN_RET_ON_ERR(bn_sub(bn, &v, NULL));
-			if (0 == bn_is_even(bn)) {
-				BN_RET_ON_ERR(bn_add(bn, m, NULL));
+			BN_RET_ON_ERR(bn_sub(&u, &v, NULL));
+			if (0 == bn_is_even(&u)) {
+				BN_RET_ON_ERR(bn_add(&u, m, NULL));
 			}
-			bn_r_shift(bn, 1);
+			bn_r_shift(&u, 1);
 		} else {
 			BN_RET_ON_ERR(bn_sub(&b, &a, NULL));
 			bn_r_shift(&b, 1);
-			if (bn_cmp(&v, bn) < 0) {
+			if (bn_cmp(&v, &u) < 0) {
 				BN_RET_ON_ERR(bn_add(&v, m, NULL));
 			}
-			BN_RET_ON_ERR(bn_sub(&v, bn, NULL));
+			BN_RET_ON_ERR(bn_sub(&v, &u, NULL));
 			if (0 == bn_is_even(&v)) {
 				BN_RET_ON_ERR(bn_add(&v, m, NULL));
 			}
@@ -3501,6 +3505,7 @@ bn_mod_div_mont(bn_p bn, bn_p d, bn_p m, bn_mod_rd_data_p mod_rd_data __unused) 
 	}
 	if (0 == bn_is_one(&a)) /* a = b = gcd(d, m) != 1: can not divide. */
 		return (EINVAL);
+	BN_RET_ON_ERR(bn_assign(bn, &u));
 
 	return (0);
 }
@@ -3553,6 +3558,8 @@ bn_mod_small(bn_p bn, bn_p m, bn_mod_rd_data_p mod_rd_data __unused) {
 
 	BN_POINTER_CHK_EINVAL(bn);
 	BN_POINTER_CHK_EINVAL(m);
+	if (0 != bn_is_zero(m)) /* bn - 0 never get less than 0: endless loop. */
+		return (EINVAL);
 
 	while (bn_cmp(bn, m) >= 0) { /* bn == m: 0. */
 		BN_RET_ON_ERR(bn_sub(bn, m, NULL));
